@@ -98,9 +98,14 @@ Fixpoint mirror_ok (l : list seg) (a b : bytes) : bool :=
       all_zero (firstn n a) && all_zero (firstn n b) && mirror_ok r (skipn n a) (skipn n b)
   end.
 
+(* The positions of the scalars are those of the canonical layout only when the little-endian
+   bytes ARE canonical (whether they are is C01's question, not C19's): then the full mirror
+   check applies; otherwise only the layout-independent part (equal lengths) is decided here. *)
 Definition spec_mirror_case (t : ty) (v : value) (obs_le obs_be : bytes) : list Z :=
-  if (len obs_le =? len obs_be) && mirror_ok (layout t v 0) obs_le obs_be then []
-  else [95; len obs_le; len obs_be].
+  if negb (len obs_le =? len obs_be) then [95; len obs_le; len obs_be]
+  else if beq obs_le (wire LE t v) then
+         (if mirror_ok (layout t v 0) obs_le obs_be then [] else [95; len obs_le; len obs_be])
+       else [].
 
 (* C04, Python side: observed [size; align; dynamic; unlimited] of a generated class *)
 Definition statics_case (t : ty) (obs : list Z) : list Z :=
@@ -167,7 +172,14 @@ Definition raw_case (t : ty) (obs : list (Z * Z * Z)) (obs_sizeof : Z) : list Z 
                 | _ => []
                 end in
   let size_ok := if is_fixed t then obs_sizeof =? size t else true in
-  if triples_eqb expect obs && size_ok then [] else [88; b2z size_ok; size t] ++ flat3 expect.
+  (* the generator model (PcModel.pc_raw_layout, proved equal to the spec in PcRawFacts) must
+     describe the compiled header as well: that is the tie of the C08 theorem to the code *)
+  let model_ok := match t with
+                  | TStruct fs => triples_eqb (pc_raw_layout fs) obs && (if is_fixed t then obs_sizeof =? pc_size t else true)
+                  | _ => true
+                  end in
+  if triples_eqb expect obs && size_ok then (if model_ok then [] else [89; pc_size t])
+  else [88; b2z size_ok; size t] ++ flat3 expect.
 
 From Prophy Require Import ApiSpec.
 
